@@ -122,11 +122,26 @@ func (c c12) Execute(p *core.Plan) *core.Result {
 		}
 		res.Evals++
 		// derivation against the independent reference
-		strict := hasSuite && class == 0
+		// strict where the byte representation is unambiguous: full-width encodings with a
+		// non-zero top byte, and values >= N (their minimal encoding is the only one without
+		// leading zeros and is what "blind-key bytes" can mean)
+		strict := hasSuite && (class == 0 || class == 2)
 		if !hasSuite {
 			res.Probe("P-224: derivation oracle skipped (no RFC 9380 suite), laws only")
-		} else if class != 0 {
-			res.Probe("blind key with leading-zero / >= N / short encoding: derivation oracle skipped, laws only")
+		} else if !strict {
+			res.Probe("blind key with leading-zero / short / zero-prefixed encoding: derivation oracle skipped, laws only")
+		}
+		if class == 2 {
+			// d and d+N are different blinds: they must give different blinded keys
+			dOnly := new(big.Int).Sub(new(big.Int).SetBytes(b1Bytes), N)
+			if dOnly.Sign() > 0 {
+				bd, _ := ecdsa.CreateKey(cv, dOnly.Bytes())
+				pd, err := ecdsa.BlindPublicKeyWithContext(cv, &sk.PublicKey, bd, ctx)
+				res.Evals++
+				if err == nil && eq(pd, pk1) {
+					viol("blind-not-bound", "the blinds d and d+N give the same blinded key")
+				}
+			}
 		}
 		if strict {
 			k, _ := ref.BlindFactor(cv, ref.MinimalBE(b1Bytes), ctx)
@@ -191,6 +206,25 @@ func (c c12) Execute(p *core.Plan) *core.Result {
 			r0, s0, err0 := ecdsa.BlindKeySign(entropy.Reader(), sk, b1, digest)
 			if err0 != nil || r0.Cmp(rr) != 0 || s0.Cmp(ss) != 0 {
 				viol("helper-mismatch", "BlindKeySign differs from BlindKeySignWithContext with an empty context under the same entropy")
+			}
+		}
+		// the same signing and blind keys under another context: the signature must verify under
+		// that context's blinded key (a multi-step sequence on the same key values)
+		{
+			ctx2 := append(append([]byte(nil), ctx...), 0x42)
+			pk2c, err2 := ecdsa.BlindPublicKeyWithContext(cv, &sk.PublicKey, b1, ctx2)
+			ent.Begin("signer", fmt.Sprintf("pipe/%d/ctx2", si))
+			r2, s2, err3 := ecdsa.BlindKeySignWithContext(entropy.Reader(), sk, b1, digest, ctx2)
+			res.Evals++
+			if err2 != nil || err3 != nil {
+				viol("sign-error", fmt.Sprint(err2, err3))
+			} else {
+				if !ecdsa.Verify(pk2c, digest, r2, s2) || !stdecdsa.Verify(&stdecdsa.PublicKey{Curve: cv, X: pk2c.X, Y: pk2c.Y}, digest, r2, s2) {
+					viol("second-context-signature-rejected", "a second signature with the same signing and blind keys under another context does not verify under that context's blinded key")
+				}
+				if ecdsa.Verify(pk1, digest, r2, s2) {
+					viol("second-context-signature-under-first-key", "a signature made under another context verifies under the first context's blinded key")
+				}
 			}
 		}
 		// corruption in transit: the blinded key must change
